@@ -202,33 +202,6 @@ def probe_lifecycle_full : Prop :=
   ∀ (i : MyIntf) (svc : Service) (t0 j : Nat), j < 250 → Registrable i svc →
     sendsAt (lifecycle i svc t0 j) = expectedSends i svc t0 j
 
-/-- `eth0`, index 2, 192.168.1.10/24 -/
-def eth0 : MyIntf := { name := [0x65, 0x74, 0x68, 0x30], index := 2, addrs := [([192, 168, 1, 10], [255, 255, 255, 0])] }
-
-/-- `eth0` with 192.168.1.10/24 and fe80::10/64 -/
-def eth0dual : MyIntf :=
-  { name := [0x65, 0x74, 0x68, 0x30], index := 2,
-    addrs := [([192, 168, 1, 10], [255, 255, 255, 0]),
-              ([0xfe, 0x80, 0, 0, 0, 0, 0, 0, 0, 0, 0, 0, 0, 0, 0, 0x10], [255, 255, 255, 255, 255, 255, 255, 255, 0, 0, 0, 0, 0, 0, 0, 0])] }
-
-/-- `web._http._tcp.local.` on `alpha.local.`, port 80, 192.168.1.20, empty TXT -/
-def web : Service :=
-  { ty := [0x5f,0x68,0x74,0x74,0x70,0x2e,0x5f,0x74,0x63,0x70,0x2e,0x6c,0x6f,0x63,0x61,0x6c,0x2e], sub := none,
-    fullname := [0x77,0x65,0x62,0x2e,0x5f,0x68,0x74,0x74,0x70,0x2e,0x5f,0x74,0x63,0x70,0x2e,0x6c,0x6f,0x63,0x61,0x6c,0x2e],
-    host := [0x61,0x6c,0x70,0x68,0x61,0x2e,0x6c,0x6f,0x63,0x61,0x6c,0x2e], port := 80, addrs := [[192, 168, 1, 20]],
-    txt := [0], probe := true, addrAuto := false }
-
-/-- `Web._http._tcp.local.` (mixed case) with subtype `_printer._sub._http._tcp.local.` on
-    `Beta.local.`, port 631, 192.168.1.20 and fe80::20, TXT `path=/` -/
-def webMixed : Service :=
-  { ty := [0x5f,0x68,0x74,0x74,0x70,0x2e,0x5f,0x74,0x63,0x70,0x2e,0x6c,0x6f,0x63,0x61,0x6c,0x2e],
-    sub := some [0x5f,0x70,0x72,0x69,0x6e,0x74,0x65,0x72,0x2e,0x5f,0x73,0x75,0x62,0x2e,
-                 0x5f,0x68,0x74,0x74,0x70,0x2e,0x5f,0x74,0x63,0x70,0x2e,0x6c,0x6f,0x63,0x61,0x6c,0x2e],
-    fullname := [0x57,0x65,0x62,0x2e,0x5f,0x68,0x74,0x74,0x70,0x2e,0x5f,0x74,0x63,0x70,0x2e,0x6c,0x6f,0x63,0x61,0x6c,0x2e],
-    host := [0x42,0x65,0x74,0x61,0x2e,0x6c,0x6f,0x63,0x61,0x6c,0x2e], port := 631,
-    addrs := [[192, 168, 1, 20], [0xfe, 0x80, 0, 0, 0, 0, 0, 0, 0, 0, 0, 0, 0, 0, 0, 0x20]],
-    txt := [6, 0x70, 0x61, 0x74, 0x68, 0x3d, 0x2f], probe := true, addrAuto := false }
-
 /-- the life cycle checked for a range of jitters by evaluating the model -/
 def lifecycleOk (i : MyIntf) (svc : Service) (t0 : Nat) (js : List Nat) : Bool :=
   js.all fun j => sendsAt (lifecycle i svc t0 j) == expectedSends i svc t0 j
